@@ -122,7 +122,7 @@ def grid_clause(model, rep, funcs):
         rep.ob("S11", "index grids", "the three index-grid siblings use the same recipe", False, f"{recipes}", clause="1 grid", stmt="grid siblings")
     elif recipes:
         rep.ob("S11", "index grids", "the three index-grid siblings use the same recipe", True, "", clause="1 grid", stmt="grid siblings")
-    rep.floor("L.grid", 3, "(three get_indices siblings)")
+    rep.floor("L.grid", 3 - len(rep.instances.get("ALIAS", [])), "(three get_indices siblings)")
 
 
 def _sign_eval(e: ast.expr, env: dict):
